@@ -329,6 +329,7 @@ fn with_exact<T>(input: &[u8], off: usize, f: impl FnOnce(&[u8]) -> T) -> T {
 pub fn check_input(out: &mut Out, e: &'static Encoding, input: &[u8], emit_mask: u8, off: usize) {
     with_exact(input, off % 16, |inp| {
         for (i, f) in FUNCS.iter().enumerate() {
+            trace_op(&op_lhs(e, *f, inp));
             let r = run_oneshot(e, *f, inp);
             if emit_mask & (1 << i) != 0 {
                 out.op(op_lhs(e, *f, inp), op_rhs(&r));
